@@ -70,6 +70,7 @@ class Facts:
         self.timeouts = {}  # ev -> event_timeout
         self.registered_at = {}  # handler index -> seq of its bus.on()
         self.runloop_exits = []  # (seq, bus)
+        self.burn_total = 0.0  # virtual seconds of synchronous CPU hogging executed (nothing can be cancelled meanwhile)
         self.self_cancelled = []  # (seq, act): handler ended with CancelledError of its own making
         open_aw = {}
         open_pe = {}
@@ -89,6 +90,8 @@ class Facts:
                 self.etype[r[3]] = r[4]
                 self.sid[r[3]] = r[6]
                 self.timeouts[r[3]] = r[7]
+            elif k == 'burn':
+                self.burn_total += r[4]
             elif k == 'runloop_exit':
                 self.runloop_exits.append((seq, r[3]))
             elif k == 'raise_cancelled':
